@@ -35,6 +35,21 @@ CLAIMED = {
              "doCallouts/doGetMoreData; Max-Forwards is only ever emitted as hops-1 under hops>0.",
         technique="CFG dominance at every resolved call site of the forwarding entry point + response rule + call-argument shape",
         design="5/C63"),
+    "C54": dict(
+        text="Exact per-path effect summaries of all 11 Ipc::ReadWriteLock methods (every acyclic path, callee methods inlined by summary): "
+             "each return class has exactly the contract's net effect on readLevel/writeLevel/readers/writing/appending/updating (failed "
+             "acquisitions are net zero, unlocks are inverses); announce-then-check order (++readLevel before reading writeLevel; the "
+             "writeLevel++ RMW result itself is the tested value; readLevel read before writing=true); all six members are std::atomic with "
+             "default-order operations. Mutual exclusion over interleavings is NOT decided.",
+        technique="exhaustive acyclic-path effect summaries (BALANCE) against a contract table + per-path operation order + type facts",
+        design="5/C54"),
+    "C55": dict(
+        text="Lock protocol of Ipc::StoreMap over all acyclic paths of 16 open*/close*/abort*/free* functions: a non-null/true return holds "
+             "exactly the contract's shared/exclusive/header locks, every failure return released what it took, closes are inverses; a reader "
+             "is handed an anchor only after lockShared, !empty, !waitingToBeFreed, sameKey; every freeChain call is dominated by exclusive "
+             "ownership; raw lock primitives are called only from the map classes (whole program). Cross-process visibility is NOT decided.",
+        technique="BALANCE path summaries with lock-primitive contracts + CFG dominance + whole-program who-calls",
+        design="5/C55"),
 }
 
 NOT_APPLICABLE = {
